@@ -270,6 +270,8 @@ type routing struct {
 	eventIdx int
 	// operandText holds the operand the tests of this routing were called with, when it is text
 	operandText []string
+	// langAtRouting is the language configuration in force when the tests of this routing ran
+	langAtRouting *langState
 }
 
 func runDepth(r flows.Run) int {
@@ -663,7 +665,12 @@ func (C07) AfterCall(w *World, c *Call) {
 							continue
 						}
 						if calls[j].ArgText[ai+1] != a {
-							w.Violate("C18", "case-arguments", "C18.case-argument-language", fmt.Sprintf("router on node %s case %d (%s) was handed argument %q; with contact language %q, allowed %v and base %s the fallback chain prescribes %q", nodeU, j, want, calls[j].ArgText[ai+1], ls.contactLang, ls.allowed, rt.def.Lang, a))
+							// (the localized arguments are part of C07's statement as well as of C18's)
+							argProp := "C18"
+							if w.Cfg.Prop == "C07" {
+								argProp = "C07"
+							}
+							w.Violate(argProp, "case-arguments", argProp+".case-argument-language", fmt.Sprintf("router on node %s case %d (%s) was handed argument %q; with contact language %q, allowed %v and base %s the fallback chain prescribes %q", nodeU, j, want, calls[j].ArgText[ai+1], ls.contactLang, ls.allowed, rt.def.Lang, a))
 							return
 						}
 						w.probe("c18_case_argument_checked")
@@ -717,6 +724,10 @@ func (C07) AfterCall(w *World, c *Call) {
 			if len(calls) > 0 && len(calls[0].Args) > 0 {
 				if _, isText := calls[0].Args[0].(*types.XText); isText {
 					rt.operandText = []string{calls[0].ArgText[0]}
+				}
+				if tl.usable {
+					ls := tl.stateAt(calls[len(calls)-1].At)
+					rt.langAtRouting = &ls
 				}
 			}
 			if !w.checkResult(c, rt, router, cat, match, isMatch, "switch") {
@@ -846,11 +857,22 @@ func (w *World) checkResult(c *Call, rt *routing, router, cat gen.J, match strin
 // checkSilentSave judges the stored result of a routing that logged no run_result_changed.
 func (w *World) checkSilentSave(c *Call, rt *routing, router, cat gen.J, nodeU, kind string) bool {
 	name, _ := router["result_name"].(string)
-	if name == "" || kind != "switch" || len(rt.operandText) == 0 {
+	if name == "" {
 		return true
+	}
+	if kind == "timeout" {
+		return true // the value of a timeout result is the time: never an unchanged save
+	}
+	if rt.langAtRouting == nil {
+		// no test call to date the routing by: usable when the language configuration did not change in this sprint
+		if tl := buildLangTimeline(c); tl.usable && len(tl.at) == 0 {
+			ls := tl.initial
+			rt.langAtRouting = &ls
+		}
 	}
 	key := utils.Snakify(name)
 	if laterSaverPossible(rt, key) {
+		w.probe("c07_silent_save_unjudged_later_saver")
 		return true
 	}
 	res := rt.run.Results().Get(key)
@@ -858,16 +880,41 @@ func (w *World) checkSilentSave(c *Call, rt *routing, router, cat gen.J, nodeU, 
 		w.Violate("C07", "result", "C07.result-missing", fmt.Sprintf("router on node %s routed to category %q with result name %q but the run has no result %q", nodeU, cat["name"], name, key))
 		return false
 	}
-	op := rt.operandText[0]
+	op, haveOp := "", false
+	if kind == "switch" && len(rt.operandText) > 0 {
+		op, haveOp = rt.operandText[0], true
+	}
 	switch {
 	case string(res.NodeUUID) != nodeU:
 		w.Violate("C07", "result", "C07.result-stale/node", fmt.Sprintf("router on node %s was the last to save result %q in its run (value and category unchanged, no event) but the stored result names node %s", nodeU, key, res.NodeUUID))
 	case res.Category != fmt.Sprint(cat["name"]):
 		w.Violate("C07", "result", "C07.result-stale/category", fmt.Sprintf("router on node %s routed to category %q; stored result %q has category %q", nodeU, cat["name"], key, res.Category))
-	case res.Input != op:
+	case haveOp && res.Input != op:
 		w.Violate("C07", "result", "C07.result-stale/input", fmt.Sprintf("router on node %s was the last to save result %q in its run with operand %q (value and category unchanged, so no event) but the stored result carries input %q", nodeU, key, op, res.Input))
 	default:
 		w.probe("c07_silent_save_checked")
+		// the silently saved result carries the category name localized for the language in force now
+		if rt.langAtRouting != nil {
+			same := 0
+			for _, oc := range categoriesOf(rt.node) {
+				if oc["name"] == cat["name"] {
+					same++
+				}
+			}
+			if same == 1 {
+				cu, _ := cat["uuid"].(string)
+				_, tr := rt.def.resolve(*rt.langAtRouting, cu, "name")
+				exp := ""
+				if tr != nil {
+					exp = tr[0]
+				}
+				if res.CategoryLocalized != exp {
+					w.Violate("C18", "category-localized", "C18.category-localized/silent-save", fmt.Sprintf("router on node %s saved result %q again (value and category unchanged, no event); with contact language %q, allowed %v and base %s the fallback chain prescribes category_localized %q but the stored result has %q", nodeU, key, rt.langAtRouting.contactLang, rt.langAtRouting.allowed, rt.def.Lang, exp, res.CategoryLocalized))
+					return false
+				}
+				w.probe("c18_category_localized_checked")
+			}
+		}
 		return true
 	}
 	return false
